@@ -304,7 +304,7 @@ def R4_formula(ctx, rid="C07.R4"):
                 ok = crt[0] == "call" and crt[1] == mv.path and crt[2][0] == ("arg", 3) and Arith(F, {("arg", 2): "acc"}).ev(crt[2][1]).equals(Ratio(Poly.sym("acc")))
             ctx.check(ok, "map_value:Combined", "Combined is not a left fold of the inner rates starting from x: %s" % short(t)[:160], mv.where())
         else:
-            ctx.bad("map_value:%s" % v, "unknown VehicleCostRate variant", mv.where())
+            ctx.bad("map_value:%s" % (v,), "unknown VehicleCostRate variant", mv.where())
     for v in ("Zero", "Raw", "Factor", "Offset", "Combined"):
         if v not in seen:
             ctx.bad("map_value:%s:missing" % v, "no return path", mv.where())
